@@ -48,7 +48,7 @@ fn member_iteration(m: &Cfg, how: How) -> Result<(Vec<u8>, Vec<usize>), String> 
             Ok((bytes, lens))
         }
         leaf => {
-            let b = build_bytes(leaf, how).map_err(|e| format!("member {} cannot be built on its own: {}", leaf.shape(), e.render()))?;
+            let b = drive::build_bytes_zeroed(leaf, how).map_err(|e| format!("member {} cannot be built on its own: {}", leaf.shape(), e.render()))?;
             let n = b.len();
             Ok((b, vec![n]))
         }
@@ -79,7 +79,9 @@ pub fn check_c14(ctx: &mut Ctx, cfg: &Cfg, how: How) {
         let mut bytes = None;
         if let WOut::Ok(n) = &r {
             if *n <= (1 << 22) {
-                let mut buf = drive::dirty(*n);
+                // zeroed (not dirty) buffers: a byte a member leaves unwritten is C17's / C07's finding and must not
+            // look like a difference between two images of the same member at different offsets / histories
+            let mut buf = vec![0u8; *n];
                 let got = write(w, &mut buf);
                 bytes = Some((got, buf));
             }
@@ -341,7 +343,9 @@ fn build_with_history(cfg: &Cfg, h: u64) -> (WOut, Option<Vec<u8>>) {
             if *n > (1 << 22) {
                 return (r, None);
             }
-            let mut buf = drive::dirty(*n);
+            // zeroed (not dirty) buffers: a byte a member leaves unwritten is C17's / C07's finding and must not
+            // look like a difference between two images of the same member at different offsets / histories
+            let mut buf = vec![0u8; *n];
             match write(w, &mut buf) {
                 WOut::Ok(m) if m == *n => (r, Some(buf)),
                 other => (other, None),
@@ -1052,29 +1056,7 @@ pub fn check_c19_cfg(ctx: &mut Ctx, cfg: &Cfg, how: How) {
     ctx.eval();
     let kind = cfg.kind_name();
     let case = || cfg_case("c19-cfg", cfg, how);
-    let bytes = match build_bytes(cfg, how) {
-        Ok(b) => b,
-        Err(e) => {
-            ctx.violate("build", kind, &e.class(), case, "a representable unknown / third-party configuration is written", e.render());
-            return;
-        }
-    };
-    let model = enc::enc_unchecked(cfg);
-    if bytes != model && crate::mon::writers::canon_fir_only(&bytes) != crate::mon::writers::canon_fir_only(&model) {
-        let d = bytes.iter().zip(&model).position(|(a, b)| a != b).unwrap_or(bytes.len().min(model.len()));
-        ctx.violate(
-            "image",
-            kind,
-            if d < 4 { "header" } else if d >= model.len().saturating_sub(cfg.padding() as usize) { "padding-trailer" } else { "body" },
-            case,
-            format!("header + payload + padding trailer: {}", hex(&model[..model.len().min(64)])),
-            format!("{} (first difference at {d})", hex(&bytes[..bytes.len().min(64)])),
-        );
-        return;
-    }
-    ctx.class_dyn(format!("c19:{kind}:{}:{}", if cfg.padding() > 0 { "padded" } else { "unpadded" }, if dec::count(&bytes) > 0 { "count>0" } else { "count=0" }));
-    // each leaf packet: generic parser gives Unknown exposing the exact bytes; converts back
-    // (nested compounds flatten: a compound has no header of its own)
+    // nested compounds flatten: a compound has no header of its own
     fn flatten<'c>(c: &'c Cfg, out: &mut Vec<&'c Cfg>) {
         match c {
             Cfg::Compound(m) => m.iter().for_each(|x| flatten(x, out)),
@@ -1083,23 +1065,76 @@ pub fn check_c19_cfg(ctx: &mut Ctx, cfg: &Cfg, how: How) {
     }
     let mut leafs: Vec<&Cfg> = vec![];
     flatten(cfg, &mut leafs);
-    let data = drive::exact(&bytes);
-    let tiles = dec::tiling(&data).unwrap_or_default();
-    if tiles.len() != leafs.len() {
-        ctx.violate("compound-tiles", kind, "count", case, format!("{} tiles", leafs.len()), format!("{} tiles", tiles.len()));
+    let foreign = |c: &Cfg| matches!(c, Cfg::Unknown { .. } | Cfg::Custom { .. });
+    // What the bytes must be. Unknown / third-party members: the model's image. Built-in members of a mixed
+    // compound are *not this property's business*: their reference is whatever the crate writes for them on
+    // their own (into a zeroed buffer); if a built-in member cannot even be written on its own, the case says
+    // nothing about third-party interoperability and is skipped.
+    let mixed = cfg.is_compound() && leafs.iter().any(|l| !foreign(l));
+    let mut model: Vec<u8> = vec![];
+    let mut bounds: Vec<(usize, usize)> = vec![];
+    for leaf in &leafs {
+        let img = if foreign(leaf) {
+            enc::enc_unchecked(leaf)
+        } else {
+            match drive::build_bytes_zeroed(leaf, how) {
+                Ok(b) => b,
+                Err(_) => {
+                    ctx.class("c19:other-property:built-in-member-not-writable-alone");
+                    return;
+                }
+            }
+        };
+        bounds.push((model.len(), model.len() + img.len()));
+        model.extend_from_slice(&img);
+    }
+    let built = if mixed { drive::build_bytes_zeroed(cfg, how) } else { build_bytes(cfg, how) };
+    let bytes = match built {
+        Ok(b) => b,
+        Err(e) => {
+            ctx.violate("build", kind, &e.class(), case, "a representable unknown / third-party configuration is written (alone or embedded in a compound whose other members are writable)", e.render());
+            return;
+        }
+    };
+    if bytes != model && crate::mon::writers::canon_fir_only(&bytes) != crate::mon::writers::canon_fir_only(&model) {
+        let d = bytes.iter().zip(&model).position(|(a, b)| a != b).unwrap_or(bytes.len().min(model.len()));
+        ctx.violate(
+            "image",
+            kind,
+            if d < 4 { "header" } else if d >= model.len().saturating_sub(cfg.padding() as usize) { "padding-trailer" } else { "body" },
+            case,
+            format!("header + payload + padding trailer (built-in members: as written on their own): {}", hex(&model[..model.len().min(64)])),
+            format!("{} (first difference at {d})", hex(&bytes[..bytes.len().min(64)])),
+        );
         return;
     }
+    ctx.class_dyn(format!("c19:{kind}:{}:{}", if cfg.padding() > 0 { "padded" } else { "unpadded" }, if dec::count(&bytes) > 0 { "count>0" } else { "count=0" }));
+    // each unknown / third-party leaf: the generic parser gives Unknown exposing the exact bytes; converts back.
+    // Tiles are the members' own extents (not re-derived from length fields a built-in member may have got wrong).
+    let data = drive::exact(&bytes);
+    let tiles = bounds;
+    // does every built-in member's tile parse on its own? (if not, iteration rightly stops there: C11 / the
+    // member's own property, not this one)
+    let builtins_parse = leafs
+        .iter()
+        .zip(&tiles)
+        .all(|(l, (a, b))| (foreign(l) && !(200..=206).contains(&data[*a + 1])) || matches!(call(|| Packet::parse(&data[*a..*b]).is_ok()), Ok(true)));
     // iterate as compound as well
-    let via_compound: Result<Vec<String>, String> = match call(|| Compound::parse(&data).map(|c| c.map(|r| format!("{r:?}")).collect::<Vec<_>>())) {
-        Ok(Ok(v)) => Ok(v),
-        Ok(Err(e)) => Err(format!("{e:?}")),
-        Err(p) => Err(format!("panic: {}", p.msg)),
+    let via_compound: Option<Result<Vec<String>, String>> = if !builtins_parse {
+        ctx.class("c19:other-property:built-in-member-does-not-parse");
+        None
+    } else {
+        Some(match call(|| Compound::parse(&data).map(|c| c.map(|r| format!("{r:?}")).collect::<Vec<_>>())) {
+            Ok(Ok(v)) => Ok(v),
+            Ok(Err(e)) => Err(format!("{e:?}")),
+            Err(p) => Err(format!("panic: {}", p.msg)),
+        })
     };
     for (i, (leaf, (a, b))) in leafs.iter().zip(&tiles).enumerate() {
         let tile = &data[*a..*b];
         let pt = tile[1];
-        if (200..=206).contains(&pt) {
-            continue; // built-in member of a mixed compound
+        if !foreign(leaf) || (200..=206).contains(&pt) {
+            continue; // built-in member of a mixed compound, or a raw packet carrying a built-in type number
         }
         let r = call(|| {
             let p = Packet::parse(tile).map_err(|e| format!("Packet::parse fails: {e:?}"))?;
@@ -1143,7 +1178,7 @@ pub fn check_c19_cfg(ctx: &mut Ctx, cfg: &Cfg, how: How) {
                 return;
             }
             Ok(Ok(dbg)) => {
-                if let Ok(items) = &via_compound {
+                if let Some(Ok(items)) = &via_compound {
                     if items.get(i) != Some(&dbg) {
                         ctx.violate("compound-iteration", kind, "item", case, format!("item {i} == {dbg}"), format!("{:?}", items.get(i)));
                         return;
@@ -1152,7 +1187,7 @@ pub fn check_c19_cfg(ctx: &mut Ctx, cfg: &Cfg, how: How) {
             }
         }
     }
-    if let Err(e) = &via_compound {
+    if let Some(Err(e)) = &via_compound {
         ctx.violate("compound-iteration", kind, "parse", case, "the image parses as a compound", e.clone());
     }
     ctx.nontrivial(hash_of(cfg));
